@@ -88,12 +88,12 @@ func idKey(j jid) string { return strings.Join(j[:], "|") }
 
 // ---------- kinds ----------
 
-type kindInfo struct {
+type sysKindInfo struct {
 	group, version, kind, resource string
 	namespaced                     bool
 }
 
-var sysKinds = []kindInfo{
+var sysKinds = []sysKindInfo{
 	{"", "v1", "ConfigMap", "configmaps", true},
 	{"", "v1", "Namespace", "namespaces", false},
 	{"", "v1", "Secret", "secrets", true},
@@ -101,7 +101,7 @@ var sysKinds = []kindInfo{
 	{"rbac.authorization.k8s.io", "v1", "ClusterRole", "clusterroles", false},
 }
 
-func kindOf(group, kind string) *kindInfo {
+func kindOf(group, kind string) *sysKindInfo {
 	for i := range sysKinds {
 		if sysKinds[i].group == group && sysKinds[i].kind == kind {
 			return &sysKinds[i]
@@ -109,7 +109,7 @@ func kindOf(group, kind string) *kindInfo {
 	}
 	return nil
 }
-func kindOfResource(group, res string) *kindInfo {
+func kindOfResource(group, res string) *sysKindInfo {
 	for i := range sysKinds {
 		if sysKinds[i].group == group && sysKinds[i].resource == res {
 			return &sysKinds[i]
